@@ -9,6 +9,7 @@ THEOREMS = [
     "C09.findall_eq", "C09.findall_count_contract", "C09.findall_nodup", "C09.find_eq",
     "C09.find_names_eq", "C09.find_attrs_eq", "C09.find_paths_eq", "C09.find_children_eq",
     "C09.find_children_binary_eq", "C09.find_full_path_iff", "C09.relative_eq_spec",
+    "C09.relative_paths_eq", "C09.find_full_path_path_name", "C09.preorder_is_iter_preorder",
 ]
 PROOF_IMPORTS = ["BigtreeProofs.Properties.C09"]
 RULE = ("each of the 14 search functions from every start node of: all ordered trees up to N nodes (deterministic labelling "
@@ -714,9 +715,27 @@ def shrink(case):
 
 
 NOT_READY = False
-TECHNIQUE = ("Lean 4 proof: findall (the filtered, depth-gated pre-order + the result-count check), find, the name / path-suffix / "
-             "attribute instances, find_children, find_full_path's component-wise descent and find_relative_paths' accumulator-style "
-             "resolve are modelled as written and proved equal to their specifications for every tree, start node and query; the "
-             "model is tied to the code by differential testing of all 14 functions.")
-LEVEL_TEXT = ""
-LEVEL_NOTE = ""
+TECHNIQUE = ("Lean 4 proof (structural induction: each search function as written = filter of the depth-gated pre-order / component-wise "
+             "descent / denotation of the relative path) + correspondence check of all 14 search functions against the real code")
+LEVEL_TEXT = ("Proof. Lean 4 theorems (C09.*) show, for every tree, start node, condition, query and count bounds, that the models written "
+              "the way search.py is written equal their specifications: findall = the nodes of the searched subtree within max_depth that "
+              "satisfy the condition, in pre-order, each once (members characterised exactly), SearchError iff min_count / max_count is "
+              "violated and no other failure; find = the node / None / SearchError by the number of matches; find_name(s), find_attr(s) "
+              "(Python == on None/int/str/bool, missing attribute = None) and find_path(s) (path_name = sep + sep.join(names from the root) "
+              "ends with the query stripped of trailing separator characters: a string suffix) are the corresponding instances; "
+              "find_children / find_child / find_child_by_name look at exactly the existing children (on a BinaryNode the two slots, empty "
+              "ones skipped); find_full_path (strip, split, check the root name, descend component-wise) returns node v iff v exists and its "
+              "names joined by the separator are the stripped query, and find_full_path(path_name(v)) = v (one-character separator in no "
+              "name, non-empty sibling-unique names); the accumulator-style resolve of find_relative_paths equals the denotational "
+              "resolveSpec ('.' stay, '..' parent or SearchError at the root, '*' every child in order, a name that child, a missing name "
+              "SearchError unless the query contains a wildcard) and the public function adds the count contract; the pre-order used is "
+              "C04's model of preorder_iter. The model is tied to /repo on every run by differential testing of all 14 functions from "
+              "every start node: exhaustive relative paths (<=3/4 components over . .. * a b) and count contracts on all trees with <=4/5 "
+              "nodes, all shapes <=5/6 nodes, random trees with repeated and suffix-related names (a, b, ab, ba, aa, 'a b', 'a.b'), "
+              "attributes, separators / . \\ | - ::, duplicated sibling names, BinaryNode trees with holes (regression D8); a model-free "
+              "oracle (own traversal of .children, own path strings, breadth-wise file-system reading of relative paths) checks every case.")
+LEVEL_NOTE = ("Trusted: Lean kernel, axioms <= {propext, Classical.choice, Quot.sound} (audited each run), the hand-written model's "
+              "correspondence to search.py as established by the tie (not proved), CPython. Conditions are functions of node identity; "
+              "strings are character lists with Python's strip / split / endswith re-implemented in the model (multi-character separators "
+              "and names containing the separator are covered by the tie only; the path theorems assume a one-character separator in no "
+              "name). The absolute-path branch of find_relative_paths is out of scope (DESIGN section 5) and never generated.")
